@@ -1,6 +1,7 @@
 package prop
 
 import (
+	"sort"
 	"crypto/sha256"
 	"encoding/hex"
 	"encoding/json"
@@ -67,6 +68,17 @@ func (w *recordWorkload) contents() ([]recordtypes.Content, string) {
 	var cs []recordtypes.Content
 	for i := 0; i < n; i++ {
 		cs = append(cs, recordtypes.Content{Digest: fmt.Sprintf("%x", rng.Int63()), DigestAlgo: pick(rng, "sha256", "md5"), URI: pick(rng, "", "ipfs://x"), Meta: strings.Repeat("m", rng.Intn(40))})
+	}
+	switch rng.Intn(8) {
+	case 0: // the same file listed twice (same digest and algorithm, another location)
+		c := cs[rng.Intn(len(cs))]
+		c.URI, c.Meta = "ipfs://mirror/"+c.Digest, "mirror"
+		cs = append(cs, c)
+		return cs, "same-digest-twice"
+	case 1: // an exact duplicate entry, and contents in descending digest order
+		cs = append(cs, cs[0])
+		sort.SliceStable(cs, func(i, j int) bool { return cs[i].Digest > cs[j].Digest })
+		return cs, "duplicate-entry"
 	}
 	return cs, "fresh"
 }
